@@ -5,7 +5,38 @@ use simple_dns::rdata::*;
 use simple_dns::{CharacterString, Name, Packet, Question, ResourceRecord, CLASS, QCLASS, QTYPE, TYPE};
 use std::convert::TryFrom;
 
+thread_local! {
+    /// Construction style of the current case: the same abstract value can be built through
+    /// several public constructors (Name::new_with_labels / new_unchecked(&str), TXT builder /
+    /// TryFrom<&str>, SVCB::set_param / typed setters, ...). 0 = always the basic one.
+    pub static STYLE: std::cell::Cell<u64> = const { std::cell::Cell::new(0) };
+}
+
+/// Pick an alternative constructor? Deterministic in (style, discriminator).
+fn alt(disc: u64, one_in: u64) -> bool {
+    let st = STYLE.with(|s| s.get());
+    st != 0 && simrt::rng::mix(st, disc) % one_in == 0
+}
+
+fn hash_labels(n: &Labels) -> u64 {
+    let mut h = 0xcbf2_9ce4_8422_2325u64;
+    for l in n {
+        for b in l {
+            h ^= *b as u64;
+            h = h.wrapping_mul(0x0000_0100_0000_01B3);
+        }
+        h ^= 0xff;
+        h = h.wrapping_mul(0x0000_0100_0000_01B3);
+    }
+    h
+}
+
 pub fn name(n: &Labels) -> Name<'static> {
+    // alternative: through the textual constructor, when the labels survive the '.' split
+    if !n.is_empty() && alt(hash_labels(n), 3) && n.iter().all(|l| !l.is_empty() && !l.contains(&b'.') && std::str::from_utf8(l).is_ok()) {
+        let text = n.iter().map(|l| std::str::from_utf8(l).unwrap()).collect::<Vec<_>>().join(".");
+        return Name::new_unchecked(&text).into_owned();
+    }
     let labels: Vec<simple_dns::Label<'static>> =
         n.iter().map(|l| simple_dns::Label::new_unchecked(l.clone())).collect();
     Name::new_with_labels(&labels)
@@ -16,6 +47,11 @@ pub fn class(c: u16) -> CLASS {
 }
 
 fn cs(b: &[u8]) -> CharacterString<'static> {
+    if let Ok(text) = std::str::from_utf8(b) {
+        if alt(b.len() as u64 ^ 0xC5, 3) {
+            return CharacterString::try_from(text.to_string()).expect("char-string too long");
+        }
+    }
     CharacterString::new(b).expect("char-string too long").into_owned()
 }
 
@@ -77,6 +113,11 @@ pub fn rdata(r: &Rec) -> RData<'static> {
         t::HINFO => RData::HINFO(HINFO { cpu: f.str(), os: f.str() }),
         t::MINFO => RData::MINFO(MINFO { rmailbox: f.name(), emailbox: f.name() }),
         t::MX => RData::MX(MX { preference: f.u16(), exchange: f.name() }),
+        t::TXT if txt_from_str_text(&r.fields).is_some() && alt(r.fields.len() as u64 ^ 0x7E7, 2) => {
+            // the same strings through TryFrom<&str> (chunks of 254 bytes)
+            let text = txt_from_str_text(&r.fields).unwrap();
+            RData::TXT(TXT::try_from(text.as_str()).expect("txt from str").into_owned())
+        }
         t::TXT => {
             let mut txt = TXT::new();
             // a single empty string is how an empty TXT is written; keep `strings` empty then
@@ -147,7 +188,22 @@ pub fn rdata(r: &Rec) -> RData<'static> {
                 let k = f.u16();
                 let _l = f.u16();
                 let v = f.bytes();
-                s.set_param(k, v).unwrap();
+                // typed setters where the value has the right shape
+                let typed = alt(k as u64 ^ 0x5C8, 2);
+                match (k, typed) {
+                    (0, true) if v.len() % 2 == 0 => s.set_mandatory(v.chunks(2).map(|c| u16::from_be_bytes([c[0], c[1]]))).unwrap(),
+                    (2, true) if v.is_empty() => s.set_no_default_alpn(),
+                    (3, true) if v.len() == 2 => s.set_port(u16::from_be_bytes([v[0], v[1]])),
+                    (4, true) if v.len() % 4 == 0 => s.set_ipv4hint(v.chunks(4).map(|c| u32::from_be_bytes([c[0], c[1], c[2], c[3]]))).unwrap(),
+                    (6, true) if v.len() % 16 == 0 => s
+                        .set_ipv6hint(v.chunks(16).map(|c| {
+                            let mut a = [0u8; 16];
+                            a.copy_from_slice(c);
+                            u128::from_be_bytes(a)
+                        }))
+                        .unwrap(),
+                    _ => s.set_param(k, v).unwrap(),
+                }
             }
             if r.rtype == t::SVCB { RData::SVCB(s) } else { RData::HTTPS(HTTPS(s)) }
         }
@@ -207,6 +263,30 @@ pub fn rdata(r: &Rec) -> RData<'static> {
             RData::NULL(other, NULL::new(&b).unwrap().into_owned())
         }
     }
+}
+
+/// If the strings of a TXT record are exactly what `TXT::try_from(&str)` would produce for some
+/// text (254-byte chunks, valid UTF-8 per chunk boundary), return that text.
+fn txt_from_str_text(fields: &[F]) -> Option<String> {
+    let mut strs: Vec<&Vec<u8>> = Vec::new();
+    for f in fields {
+        match f {
+            F::Str(s) => strs.push(s),
+            _ => return None,
+        }
+    }
+    if strs.len() == 1 && strs[0].is_empty() {
+        return Some(String::new());
+    }
+    let mut all = Vec::new();
+    for (i, s) in strs.iter().enumerate() {
+        let last = i + 1 == strs.len();
+        if s.is_empty() || s.len() > 254 || (!last && s.len() != 254) {
+            return None;
+        }
+        all.extend_from_slice(s);
+    }
+    String::from_utf8(all).ok()
 }
 
 pub fn record(r: &Rec) -> ResourceRecord<'static> {
